@@ -220,12 +220,13 @@ def plan(prop, tier):
             args = ["hist", "--slots", "2", "--full", "4", "--bfs", "6", "--props", prop]
             dl = 900   # depth 6 completes in ~6 min on 16 idle cores
         else:
-            args = ["hist", "--slots", "3", "--full", "6", "--bfs", "9", "--props", prop]
+            # the deduplicated BFS carries the depth; the full layer (no deduplication) guards the deduplication
+            args = ["hist", "--slots", "3", "--full", "4", "--bfs", "7", "--props", prop]
             dl = 2400
         jobs = [Job("hist", "c", args, 1), Job("hist-asan", "c-asan", ["hist", "--slots", "2", "--full", "4", "--bfs", "4" if q else "5", "--props", prop], 1)]
         P = dict(base, jobs=jobs, states_key="states", transitions_key="transitions", nontrivial_key="states", deadline_s=dl,
                  rule="all histories of API operations {create, free, define(6 pool grammars: good by text with a terminal coded by the reader, good by callbacks with error rule and sparse codes, and one failing at each stage: description syntax, terminal declaration, rule reading, final grammar check), 5 setters, parse(sentence, non-sentence, undeclared token, second sentence), free_tree} over <= 2 (thorough 3) live objects: layer 1 = every history up to the full depth, no deduplication; layer 2 = BFS with deduplication on model state + file-scope-state fingerprint + live library blocks; every history runs in a pristine forked process; oracle per call = same call on a fresh object in a fresh process with the same definition and settings + contract model (codes, error state, previous values, leak-free when nothing is live); for C15 additionally all setter argument sequences of length <= 3 over {INT_MIN,-1,0,1,2,3,INT_MAX} and token validation over 7 code layouts x every code around/inside the declared range x 3 positions; distinct_nontrivial = distinct deduplicated states",
-                 bounds={"slots": 2 if q else 3, "full_depth": 4 if q else 6, "bfs_depth_target": 6 if q else 9, "note": "BFS depth actually completed is in counters.bfs_depth_completed; deadline-bounded"},
+                 bounds={"slots": 2 if q else 3, "full_depth": 4, "bfs_depth_target": 6 if q else 7, "note": "BFS depth actually completed is in counters.bfs_depth_completed; deadline-bounded"},
                  require={"transitions": 5000, "states": 200})
     elif prop == "C19":
         jobs = []
